@@ -821,7 +821,7 @@ def _check_sniffer(ctx, prog, sn, enum_path, tunnel_variants, discr_of):
                 sb, _, _ = sn.slice_back([pp[0]])
                 peek_bufs |= {x for x in sb if re.match(r"^\[u8; \d+\]$", sn.local_ty(x))}
     conv_args = []
-    for (blk, c, t) in list(sn.calls()) + list(sn.inlined_calls()):
+    for (blk, c, t) in sn.calls():
         if c.method == "from" and c.trait and last_seg(c.trait) == "From" and (c.self_def or "").endswith("socks::SocksVersion"):
             conv_args += [op_place(a)[0] for a in t["args"] if op_place(a) is not None]
     if vers and conv_args:
